@@ -230,6 +230,7 @@ class Exchange:
         self.last_ocm = None
         self.suspended = False
         self.applied_refs = set()
+        self.suspended_markets = {}
 
     # -- helpers
     def _pt(self):
@@ -340,7 +341,9 @@ class Exchange:
                 return {"status": "FAILURE", "errorCode": "DUPLICATE_TRANSACTION", "marketId": mid, "instructionReports": [], "customerRef": ref}
             self.applied_refs.add(ref)
         for i, ins in enumerate(params["instructions"]):
-            out = self._outcome(plan, i, "FAILURE:MARKET_SUSPENDED" if self.suspended else "SUCCESS")
+            out = self._outcome(plan, i, "FAILURE:MARKET_SUSPENDED" if (self.suspended or self.suspended_markets.get(mid)) else "SUCCESS")
+            if self.suspended_markets.get(mid) and out.startswith("SUCCESS"):
+                out = "FAILURE:MARKET_SUSPENDED"  # the table wins: nothing is placed on a suspended market
             rep = {"instruction": ins}
             if out.startswith("SUCCESS"):
                 b = self._new_bet(mid, ins, params)
@@ -846,6 +849,12 @@ class LiveRun:
         upd = m["updates"][j]
         self.now = max(self.now, upd["pt"] / 1000.0)
         self._sync_clock()
+        # the exchange knows the market status before the framework does
+        self.exchange.suspended_markets[mid] = upd["st"] != "OPEN"
+        if upd["st"] != "OPEN":
+            self.res.faults["live.market_%s" % upd["st"].lower()] += 1
+            if any(t.state.startswith("parked") for t in self.tasks):
+                self.res.faults["live.market_%s.while_request_in_flight" % upd["st"].lower()] += 1
         st = self.market_stream
         d = json.loads(line)
         d["id"] = st.stream_id
